@@ -398,4 +398,95 @@ func c02F9(e *c02Env, rng *kit.RNG) {
 	}
 }
 
+// F10: the stream is paused and resumed after the ISR has shrunk and messages
+// were committed without the removed replica; the leader dies right after the
+// resume.  The partition objects rebuilt by the resume must still know the
+// shrunk ISR: otherwise the replica that missed the committed messages counts
+// as in sync again and can be elected.
+func c02F10(e *c02Env, rng *kit.RNG) {
+	l := e.leader()
+	if l == nil {
+		return
+	}
+	if !e.publishAcked(rng.Range(2, 3), client.AckPolicy_ALL, 30*time.Second) {
+		e.inconclusive("initial publishes not acked")
+		return
+	}
+	e.settle("f10-initial")
+	fol := c02Others(e.c, l.ID)
+	lag := fol[rng.Intn(2)]
+	e.hold(lag)
+	if !e.waitParked(lag) {
+		e.inconclusive("follower " + lag + " did not park at the fetch gate")
+		return
+	}
+	if !e.publishAcked(rng.Range(2, 4), client.AckPolicy_ALL, 40*time.Second) {
+		e.inconclusive("publishes with a held follower not acked (ISR shrink expected)")
+		return
+	}
+	if !e.waitISR(2) {
+		return
+	}
+	e.observe("f10-after-shrink-commit")
+	ml, err := e.c.MetaLeader(20 * time.Second)
+	if err != nil {
+		e.inconclusive("no metadata leader")
+		return
+	}
+	e.step("pauseStream")
+	ctx, cancel := context.WithTimeout(context.Background(), 20*time.Second)
+	_, perr := ml.api.PauseStream(ctx, &client.PauseStreamRequest{Name: e.stream})
+	cancel()
+	if perr != nil {
+		e.inconclusive("pause: " + perr.Error())
+		return
+	}
+	paused := vfWait(20*time.Second, func() bool {
+		for _, n := range e.c.Running() {
+			p := n.Partition(e.stream, 0)
+			if p == nil || !p.IsPaused() {
+				return false
+			}
+		}
+		return true
+	})
+	if !paused {
+		e.inconclusive("stream did not pause everywhere")
+		return
+	}
+	e.step("resume (by a publish through the API)")
+	ctx, cancel = context.WithTimeout(context.Background(), 20*time.Second)
+	_, perr = ml.api.Publish(ctx, &client.PublishRequest{Stream: e.stream, Value: []byte("f10-resume"), Key: []byte("kr"), AckPolicy: client.AckPolicy_LEADER})
+	cancel()
+	if perr != nil {
+		e.inconclusive("resuming publish: " + perr.Error())
+		return
+	}
+	nl0 := e.leader()
+	if nl0 == nil {
+		return
+	}
+	e.mu.Lock()
+	e.f10Reached = true
+	e.mu.Unlock()
+	e.step("after resume: leader=%s ISR=%v", nl0.ID, nl0.Partition(e.stream, 0).GetISR())
+	// the leader dies at once, before it could shrink the ISR again
+	e.stop(nl0.ID)
+	e.release(lag) // so that it can report the dead leader like any follower
+	nl := e.waitLeaderNot(nl0.ID)
+	if nl == nil {
+		return
+	}
+	if nl.ID == lag {
+		e.logf("NOTE: the replica that was out of the ISR before the pause (%s) was elected", lag)
+	}
+	e.checkLeaderComplete("f10-after-failover")
+	e.publish(rng.Range(1, 2), client.AckPolicy_ALL, 40*time.Second)
+	e.settle("f10-after-release")
+	if e.restart(nl0.ID) {
+		e.publish(2, client.AckPolicy_ALL, 40*time.Second)
+		e.settle("f10-old-leader-rejoined")
+	}
+}
+
 var _ = kit.Seed
